@@ -552,17 +552,17 @@ func (p *Prog) mayStoreThrough(f *ssa.Function, i int, depth int) bool {
 }
 
 var ownInitFuncs = map[string]string{
-	"NewConn":                      "the Conn is not published yet",
-	"(*Server).ServeConn":          "before Serve spawns the loops",
-	"(*serverConn).Handshake":      "called from ServeConn before Serve",
-	"(*Conn).doHandshake":          "before Handshake spawns the loops",
-	"acquireCtx":                   "the Ctx just came out of the pool; nothing else refers to it",
-	"releaseCtx":                   "after takeBack and reusable(): the connection has let go of the Ctx",
-	"NewStream":                    "the Stream just came out of the pool",
-	"createClient":                 "the Client is not published yet",
-	"ConfigureClient":              "set-up: the Client is not published yet",
-	"init$3":                       "pool constructor: a brand-new Ctx",
-	"(*serverConn).createStream":   "stream loop only, on a stream it just created",
+	"NewConn":                    "the Conn is not published yet",
+	"(*Server).ServeConn":        "before Serve spawns the loops",
+	"(*serverConn).Handshake":    "called from ServeConn before Serve",
+	"(*Conn).doHandshake":        "before Handshake spawns the loops",
+	"acquireCtx":                 "the Ctx just came out of the pool; nothing else refers to it",
+	"releaseCtx":                 "after takeBack and reusable(): the connection has let go of the Ctx",
+	"NewStream":                  "the Stream just came out of the pool",
+	"createClient":               "the Client is not published yet",
+	"ConfigureClient":            "set-up: the Client is not published yet",
+	"init$3":                     "pool constructor: a brand-new Ctx",
+	"(*serverConn).createStream": "stream loop only, on a stream it just created",
 }
 
 // protectionOf fills acc.Prot and acc.Locks.
